@@ -308,6 +308,16 @@ def pool_case(seed, cfg):
                 l2 = np.asarray(clusterer.predict(far))[: len(probe)]
                 l3 = np.asarray(clusterer.predict(probe))
                 out["purity"] = out.get("purity", 0) + len(probe)
+                if t == cfg["iters"] - 1 and len(probe):
+                    # the pool of a long run is labelled in ONE call of tens of thousands of rows: the probes, placed at the END of such a
+                    # batch, must keep their labels
+                    nlong = int(rng.choice([16385, 20011, 40003, 70001]))
+                    filler = allu[rng.integers(0, len(allu), nlong - len(probe))]
+                    l4 = np.asarray(clusterer.predict(np.vstack([filler, probe])))[-len(probe):]
+                    out["long_batches"] = out.get("long_batches", 0) + 1
+                    if not np.array_equal(l1, l4):
+                        out["bad"].append(("label-changes-between-training-and-resampling", f"iteration {it}: {int(np.sum(l1 != l4))} of {len(probe)} particles get another label when "
+                                           f"they are predicted at the end of a batch of {nlong} rows (the trimmed pool of a long run) than when predicted alone"))
                 if not np.array_equal(l1, l2) or not np.array_equal(l1, l3):
                     nd = int(np.sum(l1 != l2) + np.sum(l1 != l3))
                     out["bad"].append(("label-changes-between-training-and-resampling", f"iteration {it}: the clusterer's label of a particle depends on which other points are "
@@ -451,6 +461,7 @@ def run():
         ck.event("potential assignments (selectable pool particles) checked", val.get("potential", 0))
         ck.event("active particles whose label was compared with their training label", val.get("label_compared", 0))
         ck.event("labels re-predicted inside a different batch (purity of predict)", val.get("purity", 0))
+        ck.event("probe particles re-predicted at the end of a batch of more than 16384 rows", val.get("long_batches", 0))
         ck.event("iterations where the predicted label set had a gap", val["gaps"])
         seen = set()
         for key, what in val["bad"]:
